@@ -26,7 +26,7 @@ RULE = ("(1) exhaustive product exploration of the compiled matcher against the 
         "protocol's responder, a false positive only if a payload completing no signature is answered by a signature-"
         "dispatched responder or is withheld from the DNS fallback that answers its one-byte-shorter sibling. (3) for every "
         "witness: every single cut, sampled multi-cuts and byte-wise delivery on random ports / addresses / IP versions; the "
-        "identification read from the connection-table dump must equal the unsegmented one. Non-trivial = product edges "
+        "identification read from the connection-table dump must equal the unsegmented one; one shard repeats 16 split-signature sessions on a busy responder (66 000 other connections validated before the session, 66 000 between its two segments) and compares the answers with the idle run. Non-trivial = product edges "
         "explored + witnesses confirmed; distinct = distinct (edge key, transport) and (witness, segmentation).")
 ASSUME = ["the reference signature set is the published one (19 patterns, '*' = any byte, all begin-anchored, STUN_EMPTY and STUN_CHANGE_REQUEST also end-anchored)",
           "a divergence edge through which no complete valid request (or answerable payload) can be routed is reported as unconfirmed, not as a violation",
@@ -58,6 +58,8 @@ def forms(pid, rng):
         out.append((b"SSH-2.00-x\r\n", set()))
         out.append((b"SSH-2.0.1-x\r\n", set()))
         out.append((b"SSH-1.995-y z\r\n", set()))
+        for _ in range(6):
+            out.append((sshghost.gen_banner(rng), set()))        # the full grammar: long strings, length boundaries, lone CR / LF bytes
     elif pid == GHOST:
         out.append((b"Gh0st" + rb(8), set(range(5, 13))))
     elif pid == STUN:
@@ -447,6 +449,23 @@ def shard(ctx, budget_s, learn):
                               observed=got, expected=ref, extra={"payload": payload.hex(), "cuts": cuts})
                 break
         ctx.stats["segmentation_witnesses"] += 1
+    # ---- ... and of how many other connections the responder is holding ---------------------------------------------------------
+    if ctx.shard == 1 % ctx.nshards:
+        from ..applab import AppLab
+        sess = []
+        for pid, payload in (list(wits) + more_witnesses())[:40]:
+            dpt = sigref.decision_point(payload) or len(payload)
+            if len(payload) < 3 or len(sess) >= 16:
+                continue
+            c = rng.randrange(1, max(2, min(len(payload) - 1, dpt)))
+            sess.append((sigref.NAMES[pid], [payload[:c], payload[c:]]))
+        for name, segs, alone, crowd in AppLab(ctx, cfg).crowded_sessions(sess):
+            ctx.stats["crowded_split_signatures"] += 1
+            ctx.nontrivial("crowded", name, len(segs[0]))
+            if alone != crowd:
+                ctx.violation("crowd_changes_decision:%s" % name, "a %s request whose signature is split after %d bytes is answered differently when 66 000 other connections are validated "
+                              "before it and 66 000 more between its two segments: idle %r, crowded %r" % (name, len(segs[0]), [x and x[:16] for x in alone], [x and x[:16] for x in crowd]),
+                              observed=repr(crowd)[:300], expected=repr(alone)[:300], frames=[], note="the replay file holds the session's own frames; the 2 x 66 000 crowd connections are generated by the check (re-run it to reproduce)", extra={"segments": [s.hex()[:400] for s in segs]})
     if ctx.shard == 0:
         ctx.sample({"divergence_edge_example": matcher.edge_key(nodes, edges[0]) if edges else None,
                     "witness_example": wits[0][1].hex() if wits else None})
